@@ -74,4 +74,25 @@ PROPS = {
         'exhaustive': 'all pairs and triples of the base pool; random pools and lookup maps are sampled',
         'must_observe': ['base_pool_completed', 'lookups', 'triples'],
     },
+    'C16': {
+        'level': 'exploration',
+        'technique': 'in-harness contract checker over real renders: unique element ids make permutation, stability, first-occurrence and partition checks exact; model equality/order written from the docs',
+        'claim': 'Arrays of 0-200 elements (around and beyond the 20-element merge threshold of slice::sort) over mixed kinds, duplicates across numeric encodings, nested arrays/maps, none and '
+                 'missing attributes go through sort (plain, attribute, dotted and tuple paths), unique, group_by, first/last/nth/reverse/join/split/keys/values/pairs; every output is checked against '
+                 'the contract (permutation, non-decreasing, stable, refusal of incomparable keys, first representatives, partition, identities). Panics are recorded, CPU budget per case.',
+        'note': 'sort order of array-valued keys uses the engine order (whose lawfulness C15 checks) because the docs and the code disagree on it; a missing attribute may be an error or be discarded',
+        'rule': "one evaluation = one render of a collection-filter template; a cell = (filter template, mix of key kinds in the array, length class [0,1,small,merge,large], ok/err)",
+        'must_observe': ['sorts_verified', 'uniques_verified', 'group_bys_verified', 'nth_verified'],
+    },
+    'C17': {
+        'level': 'exploration',
+        'technique': 'matrix enumeration with a panic recorder (55 built-ins x 57 receivers x declared-argument states absent/right/wrong kind) + per-built-in contract oracles on random hostile strings and numbers',
+        'claim': 'The full matrix is enumerated in both tiers: every built-in with every receiver of the pool, each declared argument absent, of the right kind at boundary values and of each wrong kind, '
+                 'argument pairs for multi-argument built-ins, and undeclared argument names; no panic, valid UTF-8, missing required and mistyped arguments must be errors. '
+                 'Contract laws (case filters, trim*, truncate, replace, indent, newlines_to_br, escape_*, int/float/abs/str/round, default, range, type-test partition, odd/even, pluralize) run on random inputs.',
+        'note': 'case-mapping laws are asserted on scripts with 1:1 case maps only; documented ambiguities are accepted both ways (entity spelling of the apostrophe, pluralize of -1, indent of whitespace-only lines / blank first line, range with start > end); round tolerates one unit of the requested place',
+        'rule': "one evaluation = one render; a cell = (built-in, receiver kind, argument name:state:argument kind, ok/err) for the matrix and (law family, input class) for the laws",
+        'exhaustive': 'the built-in x receiver x argument-state matrix is complete; law inputs are sampled',
+        'must_observe': ['matrix_builtins_completed', 'string_law_cases', 'number_law_cases'],
+    },
 }
